@@ -16,19 +16,32 @@ and every later section (props/C05.py compares section by section and accepts `U
 namespace Ecal.Drv.C05
 open Ecal.Drv Ecal.Drv.EvalCommon Ecal.Ev
 
-/-- the sections of a case; a section may carry alternatives `<chained> [~ <as is>] ~ <spec>` (calls of a call
-    result, known finding call-result-not-callable, see c05Chains in c05.go): `pick` chooses which one the model runs —
-    `asIs = true`: the code as it is (the program with the dropped calls removed; the spec program when nothing is
-    dropped), `false`: the let-desugared meaning -/
-def splitSections (asIs : Bool) (p : String) : List String :=
-  (p.splitOn " @ ").map fun sec => match sec.splitOn " ~ " with
-    | [_, a, s] => if asIs then a else s
-    | [_, s] => s
-    | _ => sec
+/-- A section may carry alternatives separated by ` ~ ` (known findings: the code is known to deviate from the
+    property there; see c05Chains / c05BlockShare / the parameter family in c05.go), optionally ending in `#<kf id>`:
+      `<go> ~ <model>`                 the model runs the second program (same meaning, no finding)
+      `<go> ~ <as is> ~ <spec>`        the code as it is / what the property demands (id call-result-not-callable)
+      `<go> ~ <spec> ~ #<id>`          as is = the go program itself
+      `<go> ~ <as is> ~ <spec> ~ #<id>`
+    `parseAlt` gives (as-is program, spec program if any, id). -/
+def parseAlt (sec : String) : String × Option String × String :=
+  let parts := sec.splitOn " ~ "
+  let (parts, id) := match parts.getLast? with
+    | some l => if l.startsWith "#" then (parts.dropLast, (l.drop 1).toString) else (parts, "call-result-not-callable")
+    | none => (parts, "call-result-not-callable")
+  let explicitId := match (sec.splitOn " ~ ").getLast? with | some l => l.startsWith "#" | none => false
+  match parts with
+  | [g, s] => if explicitId then (g, some s, id) else (s, none, id)
+  | [_, a, s] => (a, some s, id)
+  | _ => (sec, none, id)
 
-/-- the case has an "as is" program: the code is known to deviate from the spec there -/
-def hasKnownDeviation (p : String) : Bool :=
-  (p.splitOn " @ ").any fun sec => (sec.splitOn " ~ ").length == 3
+def splitSections (asIs : Bool) (p : String) : List String :=
+  (p.splitOn " @ ").map fun sec =>
+    let (a, s, _) := parseAlt sec
+    if asIs then a else s.getD a
+
+/-- the known-finding class of the case, if one of its sections has a spec alternative -/
+def knownDeviation (p : String) : Option String :=
+  ((p.splitOn " @ ").filterMap fun sec => let (_, s, id) := parseAlt sec; s.map fun _ => id).head?
 
 def errText : Sig → String
   | .err e _ => s!"ERR {hexEnc (strBytes e.type)}"
@@ -140,10 +153,13 @@ def runSections (secs : List String) : String :=
 
 def runCase (payload : String) : String :=
   let main := runSections (splitSections true payload)
-  if hasKnownDeviation payload then
+  match knownDeviation payload with
+  | some id =>
     let spec := ((runSections (splitSections false payload)).splitOn "\t").headD ""
-    main ++ "\tkf=call-result-not-callable\tspec=" ++ spec
-  else main
+    -- only where the code as it is really differs from what the property demands
+    if (main.splitOn "\t").headD "" == spec then main
+    else main ++ "\tkf=" ++ id ++ "\tspec=" ++ spec
+  | none => main
 
 def run (_args : List String) : IO Unit := lineLoop runCase
 end Ecal.Drv.C05
